@@ -30,8 +30,9 @@ func replaySearch(p *Prog, o *Obligation, id string) map[string]interface{} {
 	if dir == "" {
 		return nil
 	}
-	h := filepath.Join(verifDir, "replay", short, o.Func+".go.txt")
-	if _, err := os.Stat(h); err != nil {
+	h := filepath.Join(verifDir, "replay", short+".go.txt")
+	testName0 := "TestVFReplay_" + sanitize(strings.TrimPrefix(o.Func, short+"."))
+	if b, err := os.ReadFile(h); err != nil || !strings.Contains(string(b), "func "+testName0+"(") {
 		return map[string]interface{}{"harness": "none for " + o.Func, "failing_input_found": false}
 	}
 	tmp, err := os.MkdirTemp("/var/tmp", "vfreplay.")
